@@ -78,6 +78,9 @@ def run(facts, chk, tier, only=None):
     from . import cli_e2e
     # the subcommand through ska::main() itself (argument parser replaced by a constructed Args value): hand-over of CLI values, width dispatch
     chk.guard('C03.cli', 'C03.cli:run0', lambda: cli_e2e.check_align(facts, chk, 'C03.cli', tier))
+    from . import cli_more
+    # .. and given sequence files instead of an .skf (built on the fly with the documented defaults)
+    chk.guard('C03.cli', 'C03.cli:run1', lambda: cli_more.check_seq_inputs(facts, chk, 'C03.cli', tier, 'align'))
     from . import buildops
     # the parallel build, functionally: sample i owns name i and column i for every recursion depth
     chk.guard('C03.func', 'C03.func:parallel_append', lambda: buildops.check_parallel_append(facts, chk, 'C03.func', tier))
